@@ -107,6 +107,16 @@ func hasAccept(states []*state) bool {
 	return false
 }
 
+// anyAccept 报告后继 run 中是否有已到达接受态的。
+func anyAccept(runs []*run) bool {
+	for _, r := range runs {
+		if hasAccept(r.states) {
+			return true
+		}
+	}
+	return false
+}
+
 // isComplete 报告状态集是否「到达接受态且无法再延伸」（贪婪终结）。
 // 含 accept 但仍有 match-state 的（如 A* 续配）不算终结，应继续贪婪延伸。
 func isComplete(states []*state) bool {
